@@ -18,9 +18,10 @@
    - no_external (c_filepps c) : no --pp-run-program.  The external program IS in the model (PPExternal f, f arbitrary; translated
      call, run in the harness) and in the footprint / no-overwrite / directory / link statements; only "succeeds" and "equals the
      fresh run" are proved without it (an in-place editor can fail on a read-only file and changes the content after rendering).
-   - specials_safe e c : every target of c is not a symbolic link, or the gate refuses links (gate_refuses_links: a property of
-     the translated gate; false before design_notes/C12_symlink_fix.patch, see gate_links_dichotomy).  Links are part of env
-     (no run creates or retargets one; exists/is_dir/stat/chmod/open follow them).  targets_plain e c : no target is a link.
+   - symbolic links and devices/FIFOs/sockets at targets (both part of env: no run creates one; exists/is_dir/stat/chmod/open follow
+     links) need no premise: the translated gate refuses them (gate_refuses_links_live, gate_refuses_special_live) and the
+     statements hold for trees with arbitrary such entries.  targets_plain e c : no target is a link or a special entry (only
+     the "succeeds" theorems need it).
    - compatible e c c' : what c needs as a directory is not a target of c', and vice versa (frozen directory skeleton);
      holds for all configurations of one namespace/language family by C11's targets_inside (paths = outdir ++ safe components,
      files end in an extension) -- stated, not derived, because C12's paths are opaque.
@@ -50,16 +51,16 @@ Print Assumptions render_independent_from_c10.
 
 (* After ANY history h of complete and interrupted runs from ANY start tree s0, a successful non-dry run whose file
    post-processors contain a SetFileMode (the command line always appends one: cli_setfilemode_last) leaves at every target
-   the file a run into the empty directory leaves: same content id, requested mode.  Trigger excluded (see
-   copy_into_directory_refuted): a directory sits where shutil.copy is about to write a support file. *)
-Theorem regen_equals_fresh : forall render e, render_independent render -> env_wf e -> forall h s0 c p, specials_safe e c ->
+   the file a run into the empty directory leaves: same content id, requested mode.  No exclusion: the gate lets only regular
+   files and missing paths through (directories 7df01dd, links 84a8551, devices/FIFOs/sockets 5a15038; History/C12_history.v). *)
+Theorem regen_equals_fresh : forall render e, render_independent render -> env_wf e -> forall h s0 c p,
   c_dryrun c = false -> no_external (c_filepps c) = true -> c_filepps c <> [] ->
   snd (step render e (history render e s0 h) c) = Ok -> snd (step render e empty_fs c) = Ok -> In p (targets c) ->
   obs (fst (step render e (history render e s0 h) c) p) = obs (fst (step render e empty_fs c) p).
 Proof. exact RegenThm.regen_equals_fresh. Qed.
 Print Assumptions regen_equals_fresh.
 
-Theorem regen_canonical : forall render e, render_independent render -> env_wf e -> forall s c p, specials_safe e c ->
+Theorem regen_canonical : forall render e, render_independent render -> env_wf e -> forall s c p,
   c_dryrun c = false -> no_external (c_filepps c) = true -> c_filepps c <> [] ->
   snd (step render e s c) = Ok -> In p (targets c) ->
   obs (fst (step render e s c) p) = canonical render e c p.
@@ -67,7 +68,7 @@ Proof. exact RegenThm.canonical_any_state. Qed.
 Print Assumptions regen_canonical.
 
 (* the content half needs no SetFileMode; the target is a regular file *)
-Theorem regen_content_canonical : forall render e, render_independent render -> env_wf e -> forall s c p, specials_safe e c ->
+Theorem regen_content_canonical : forall render e, render_independent render -> env_wf e -> forall s c p,
   c_dryrun c = false -> no_external (c_filepps c) = true ->
   snd (step render e s c) = Ok -> In p (targets c) ->
   exists f, fst (step render e s c) p = Some f /\ f_isdir f = false /\ f_cid f = render empty_fs 0 (c_class c) p.
@@ -76,12 +77,12 @@ Print Assumptions regen_content_canonical.
 
 (* a directory at the path of ANY file to generate (type file, templated or copied support file) makes the run fail; it is
    never written into, replaced, chmod-ed (owner and kind kept; untouched altogether when it is not itself a target) *)
-Theorem directory_at_target_fails : forall render e, env_wf e -> forall s c, specials_safe e c ->
+Theorem directory_at_target_fails : forall render e, env_wf e -> forall s c,
   c_dryrun c = false -> (exists p, In p (targets c) /\ fs_is_dir s p = true) -> snd (step render e s c) <> Ok.
 Proof. exact RegenThm.directory_at_target_fails. Qed.
 Print Assumptions directory_at_target_fails.
 
-Theorem directory_kept : forall render e, env_wf e -> forall s ev q f, specials_safe e (ev_cfg ev) ->
+Theorem directory_kept : forall render e, env_wf e -> forall s ev q f,
   s q = Some f -> f_isdir f = true ->
   exists f', apply_event render e s ev q = Some f' /\ f_isdir f' = true /\ f_owned f' = f_owned f /\
              (~ In q (targets (ev_cfg ev)) -> f' = f).
@@ -96,7 +97,7 @@ Print Assumptions cli_setfilemode_last.
 (* ---- what a run can touch ------------------------------------------------------------------------------------------ *)
 (* every entry that differs after a run (successful or failed) is a target, or a directory above a target that did not
    exist and has been created *)
-Theorem written_in_footprint : forall render e, env_wf e -> forall s c q, specials_safe e c ->
+Theorem written_in_footprint : forall render e, env_wf e -> forall s c q,
   fst (step render e s c) q <> s q ->
   In q (targets c) \/ (In q (dir_targets e c) /\ s q = None /\ fst (step render e s c) q = Some (new_dir e)).
 Proof. exact RegenThm.written_in_footprint. Qed.
@@ -123,14 +124,13 @@ Print Assumptions targets_distinct_from_c11.
 
 (* existing entries that are not targets keep content, mode, everything -- in every run, failed or not; a missing path stays
    missing unless it is a directory above a target *)
-Theorem foreign_untouched : forall render e, env_wf e -> forall s c q, specials_safe e c ->
+Theorem foreign_untouched : forall render e, env_wf e -> forall s c q,
   ~ In q (targets c) -> (s q <> None \/ ~ In q (dir_targets e c)) ->
   fst (step render e s c) q = s q.
 Proof. exact RegenThm.foreign_untouched. Qed.
 Print Assumptions foreign_untouched.
 
 Theorem history_foreign : forall render e, env_wf e -> forall h s q,
-  (forall ev, In ev h -> specials_safe e (ev_cfg ev)) ->
   (forall ev, In ev h -> ~ In q (targets (ev_cfg ev))) ->
   (s q <> None \/ forall ev, In ev h -> ~ In q (dir_targets e (ev_cfg ev))) ->
   history render e s h q = s q.
@@ -138,7 +138,6 @@ Proof. exact RegenThm.history_foreign. Qed.
 Print Assumptions history_foreign.
 
 Theorem foreign_dirs_only : forall render e, env_wf e -> forall h s q,
-  (forall ev, In ev h -> specials_safe e (ev_cfg ev)) ->
   (forall ev, In ev h -> ~ In q (targets (ev_cfg ev))) ->
   history render e s h q = s q \/ (s q = None /\ history render e s h q = Some (new_dir e)).
 Proof. exact RegenThm.foreign_dirs_only. Qed.
@@ -152,19 +151,19 @@ Print Assumptions foreign_unconditional_refuted.
 
 (* ---- --no-overwrite ---------------------------------------------------------------------------------------------------- *)
 (* nothing that existed before the run changes (files and directories) *)
-Theorem no_overwrite_safe : forall render e, env_wf e -> forall s c q, specials_safe e c ->
+Theorem no_overwrite_safe : forall render e, env_wf e -> forall s c q,
   c_allow c = false -> s q <> None -> fst (step render e s c) q = s q.
 Proof. exact RegenThm.no_overwrite_safe. Qed.
 Print Assumptions no_overwrite_safe.
 
 Theorem no_overwrite_safe_history : forall render e, env_wf e -> forall h s0 q,
-  (forall ev, In ev h -> exists c, ev = Run c /\ c_allow c = false /\ specials_safe e c) -> s0 q <> None ->
+  (forall ev, In ev h -> exists c, ev = Run c /\ c_allow c = false) -> s0 q <> None ->
   history render e s0 h q = s0 q.
 Proof. exact RegenThm.no_overwrite_safe_history. Qed.
 Print Assumptions no_overwrite_safe_history.
 
 (* a conflict is never silently accepted *)
-Theorem no_overwrite_conflict_fails : forall render e, env_wf e -> forall s c, specials_safe e c ->
+Theorem no_overwrite_conflict_fails : forall render e, env_wf e -> forall s c,
   c_dryrun c = false -> c_allow c = false ->
   (exists p, In p (targets c) /\ s p <> None) -> snd (step render e s c) <> Ok.
 Proof. exact RegenThm.no_overwrite_conflict_fails. Qed.
@@ -208,7 +207,7 @@ Print Assumptions dry_run_inert.
 Theorem regen_total_history : forall render e, render_independent render -> env_wf e -> forall h s0 c,
   chmodable e s0 -> (forall p, In p (targets c) -> ready e s0 p = true) ->
   compatible e c c -> (forall ev, In ev h -> compatible e c (ev_cfg ev)) ->
-  targets_plain e c -> (forall ev, In ev h -> specials_safe e (ev_cfg ev)) ->
+  targets_plain e c ->
   c_allow c = true -> c_dryrun c = false -> no_external (c_filepps c) = true ->
   snd (step render e (history render e s0 h) c) = Ok.
 Proof. exact RegenThm.regen_total_history. Qed.
@@ -216,7 +215,7 @@ Print Assumptions regen_total_history.
 
 (* ---- crash points: an interrupted run (any prefix of the action list, possibly dying inside a write) -------------------- *)
 Theorem interrupted_then_rerun_equals_fresh : forall render e, render_independent render -> env_wf e ->
-  forall s c0 n j junk c p, specials_safe e c ->
+  forall s c0 n j junk c p,
   c_dryrun c = false -> no_external (c_filepps c) = true -> c_filepps c <> [] ->
   snd (step render e (step_crash render e s c0 n j junk) c) = Ok -> snd (step render e empty_fs c) = Ok -> In p (targets c) ->
   obs (fst (step render e (step_crash render e s c0 n j junk) c) p) = obs (fst (step render e empty_fs c) p).
@@ -229,13 +228,12 @@ Theorem interrupted_then_rerun_succeeds : forall render e, render_independent re
   snd (step render e (step_crash render e s c n j junk) c) = Ok.
 Proof.
   intros render e Hi Hw s c n j junk Hc Hr Hcc Lc. apply (RegenThm.regen_total_history render e Hi Hw [Crash c n j junk] s c); auto.
-  - intros ev [<-|[]]. exact Hcc.
-  - intros ev [<-|[]]. now apply targets_plain_safe.
+  intros ev [<-|[]]. exact Hcc.
 Qed.
 Print Assumptions interrupted_then_rerun_succeeds.
 
 Theorem interrupted_touches_only_footprint : forall render e, env_wf e -> forall s c n j junk q,
-  specials_safe e c -> ~ In q (targets c) -> (s q <> None \/ ~ In q (dir_targets e c)) ->
+  ~ In q (targets c) -> (s q <> None \/ ~ In q (dir_targets e c)) ->
   step_crash render e s c n j junk q = s q.
 Proof. intros render e Hw s c n j junk. exact (RegenThm.foreign_event render e Hw s (Crash c n j junk)). Qed.
 Print Assumptions interrupted_touches_only_footprint.
@@ -243,13 +241,13 @@ Print Assumptions interrupted_touches_only_footprint.
 (* --no-overwrite after a partial run: everything the crash left (including a truncated file) stays as it is, and if the
    crash left any target the run ends in an error instead of completing it *)
 Theorem no_overwrite_after_crash : forall render e, env_wf e -> forall s c0 n j junk c,
-  specials_safe e c -> c_allow c = false -> c_dryrun c = false ->
+  c_allow c = false -> c_dryrun c = false ->
   (forall q, step_crash render e s c0 n j junk q <> None ->
              fst (step render e (step_crash render e s c0 n j junk) c) q = step_crash render e s c0 n j junk q) /\
   ((exists p, In p (targets c) /\ step_crash render e s c0 n j junk p <> None) ->
    snd (step render e (step_crash render e s c0 n j junk) c) <> Ok).
 Proof.
-  intros render e Hw s c0 n j junk c Ls Ha Hd. split.
+  intros render e Hw s c0 n j junk c Ha Hd. split.
   - intros q. now apply RegenThm.no_overwrite_safe.
   - now apply (RegenThm.no_overwrite_conflict_fails render e Hw).
 Qed.
@@ -286,28 +284,16 @@ Theorem symlink_at_target_fails : forall render e s c,
 Proof. exact RegenThm.symlink_at_target_fails. Qed.
 Print Assumptions symlink_at_target_fails.
 
-(* ---- entries that are neither file nor directory nor link (devices, FIFOs, sockets; audit 3 G-C12-3) --------------------------
-   The statements above carry specials_safe e c: no target is such an entry, or the gate refuses them (gate_refuses_special).
-   The gate does so once design_notes/C12_nonregular_fix.patch has landed and F-NONREGULAR-TARGET is recorded as fixed: *)
-Theorem nonregular_regime : if fixed_nonregular_refusal then gate_refuses_special else True.
-Proof. exact RegenThm.nonregular_regime. Qed.
-Print Assumptions nonregular_regime.
+(* refuses devices, FIFOs and sockets (5a15038: is_file()) -- unconditional; with the two theorems above the gate lets only
+   regular files (and missing paths) through *)
+Theorem gate_refuses_special_live : gate_refuses_special.
+Proof. exact RegenThm.gate_refuses_special_now. Qed.
+Print Assumptions gate_refuses_special_live.
 
-Theorem specials_safe_when_refused : forall e c, gate_refuses_special -> specials_safe e c.
-Proof. intros e c H p _. now right. Qed.
-Print Assumptions specials_safe_when_refused.
-
-Theorem special_at_target_fails : forall render e s c, gate_refuses_special ->
+Theorem special_at_target_fails : forall render e s c,
   c_dryrun c = false -> (exists p, In p (targets c) /\ links e p = None /\ special e p = true) -> snd (step render e s c) <> Ok.
 Proof. exact RegenThm.special_at_target_fails. Qed.
 Print Assumptions special_at_target_fails.
-
-(* until then the full statements are refuted for a device at a target: success reported, no generated text there *)
-Theorem special_at_target_refuted : special_quirk = true ->
-  exists e s c p, c_dryrun c = false /\ c_allow c = true /\ In p (targets c) /\ special e p = true /\
-    snd (step wit_render e s c) = Ok /\ obs (fst (step wit_render e s c) p) = Some (0, 292).
-Proof. exact RegenThm.special_at_target_refuted. Qed.
-Print Assumptions special_at_target_refuted.
 
 (* MODEL BOUNDARY (not findings): the tree is keyed by path and a path names one entry.  (1) A HARD LINK: another name of the
    same inode, inside or outside the output directory, is rewritten when the target is -- the file named by the target path IS
